@@ -111,7 +111,7 @@ def main():
             }
         ],
         "checks": checks,
-        "notes": "Verdicts are three-valued: exit 0 held, exit 1 VIOLATION, exit 2 INCONCLUSIVE (monitor not reached / oracle miscalibrated / watchdog). KNOWN_FINDINGS.txt lists repaired defects (fixed:) and any open finding.",
+        "notes": "Verdicts are three-valued: exit 0 held, exit 1 VIOLATION, exit 2 INCONCLUSIVE (monitor not reached / oracle miscalibrated / watchdog). KNOWN_FINDINGS.txt lists repaired defects (fixed:) and any open finding. Every check also runs one shard of each kind under python -O. Self-validation (not part of the checks): selftest/mutants.py (107 deliberate mutants; benign = property-preserving variants that must stay silent), selftest/seeded.py verify (180 independently written breaking changes in seeded/), selftest/seeded.py verify-benign (70 independently written property-preserving changes in seeded-benign/); DESIGN.md section 9 reports the results.",
         "not_applicable": [{"property_id": k, "reason": v} for k, v in sorted(NOT_APPLICABLE.items())],
     }
     with open(os.path.join(HERE, "MANIFEST.json"), "w") as f:
